@@ -383,6 +383,8 @@ class _MirrorSomeComparisons(ast.NodeTransformer):
 
     def visit_Compare(self, node):
         self.generic_visit(node)
+        if isinstance(node.ops[0], ast.Eq) and any(isinstance(x, ast.BinOp) and isinstance(x.op, ast.MatMult) for x in ast.walk(node)):
+            return node     # a cvxpy equality constraint is an object, not a truth value: the sign of its dual follows lhs - rhs
         if len(node.ops) == 1 and type(node.ops[0]) in self.MIRROR and self._pure(node) and self.rnd.random() < self.SHARE:
             return ast.Compare(left=node.comparators[0], ops=[self.MIRROR[type(node.ops[0])]()], comparators=[node.left])
         return node
